@@ -1,16 +1,16 @@
 package verifsim
 
 import (
-	"sync"
 	"crypto/sha256"
 	"encoding/hex"
 	"fmt"
 	"strconv"
 	"strings"
+	"sync"
 
 	f_note "github.com/transparency-dev/formats/note"
-	"github.com/transparency-dev/merkle/rfc6962"
 	"github.com/transparency-dev/witness/internal/witness"
+	"github.com/transparency-dev/witness/omniwitness"
 	"golang.org/x/mod/sumdb/note"
 )
 
@@ -153,15 +153,21 @@ func (w *World) Compatible(l int, size1 uint64, root1 []byte, size2 uint64, root
 	return false, "not_prefix_compatible"
 }
 
-// WitnessOpts builds the real witness configuration for this world.
+// KnownLogs builds the real witness's log map the way omniwitness.Main does: through
+// omniwitness.LogConfig.AsLogMap (the per-log verifier and origin come from configuration keyed by log ID).
 func (w *World) KnownLogs() (map[string]witness.LogInfo, error) {
-	m := map[string]witness.LogInfo{}
+	cfg := omniwitness.LogConfig{}
 	for _, l := range w.Logs {
-		v, err := note.NewVerifier(l.Key.VerifierString())
-		if err != nil {
-			return nil, err
+		cfg.Logs = append(cfg.Logs, omniwitness.LogInfo{Origin: l.Origin, PublicKey: l.Key.VerifierString(), URL: "http://unused.example/", Feeder: omniwitness.None})
+	}
+	m, err := cfg.AsLogMap()
+	if err != nil {
+		return nil, err
+	}
+	for _, l := range w.Logs {
+		if _, ok := m[l.ID]; !ok {
+			return nil, fmt.Errorf("AsLogMap did not file origin %q under hex(sha256(\"o:\"+origin)) = %s", l.Origin, l.ID)
 		}
-		m[l.ID] = witness.LogInfo{SigV: v, Origin: l.Origin, Hasher: rfc6962.DefaultHasher}
 	}
 	return m, nil
 }
